@@ -517,7 +517,7 @@ impl TypedScenario for C16Raw {
     fn budget(&self, tier: Tier) -> usize {
         match tier {
             Tier::Quick => 4000,
-            Tier::Thorough => 300_000,
+            Tier::Thorough => 1_500_000,
         }
     }
     fn generate(&self, seed: u64, index: usize, tier: Tier) -> Plan {
